@@ -540,10 +540,6 @@ def _build_decay_modes(
     dms = dc_dict[mother]
 
     for dm in dms:
-        # Single decay chains are allowed, which means a particle cannot have 2 decay modes
-        if mother in decay_modes:
-            raise RuntimeError("Input is not a single decay chain!") from None
-
         try:
             fs = dm["fs"]
         except Exception as e:
@@ -553,7 +549,7 @@ def _build_decay_modes(
 
         assert isinstance(fs, list)
         if _has_no_subdecay(fs):
-            decay_modes[mother] = DecayMode.from_dict(dm)
+            decay_mode = DecayMode.from_dict(dm)
         else:
             d = deepcopy(dm)
             fs_local = d["fs"]
@@ -567,7 +563,16 @@ def _build_decay_modes(
                     _build_decay_modes(decay_modes, fs[i])
             # Create the decay mode now that none of its particles
             # has a sub-decay
-            decay_modes[mother] = DecayMode.from_dict(d)
+            decay_mode = DecayMode.from_dict(d)
+
+        # Single decay chains are allowed, which means a particle cannot have 2 decay modes.
+        # The same decaying particle may occur several times in a chain, with the same decay.
+        if (
+            mother in decay_modes
+            and decay_modes[mother].to_dict() != decay_mode.to_dict()
+        ):
+            raise RuntimeError("Input is not a single decay chain!") from None
+        decay_modes[mother] = decay_mode
 
 
 T = typing.TypeVar("T")
